@@ -104,3 +104,61 @@ def solve(cons, fixed, unknown, p, limit=400000):
     if not check_ready(start):
         return
     yield from rec(0, start)
+
+
+def components(cons, unknown):
+    """partition the unknown wires (and the constraints mentioning them) into connected components; returns
+    (list of (wires, constraint indices), indices of constraints without unknown wire)"""
+    unk = set(unknown)
+    parent = {w: w for w in unknown}
+
+    def find(w):
+        while parent[w] != w:
+            parent[w] = parent[parent[w]]
+            w = parent[w]
+        return w
+    touch = []
+    for (a, b, c) in cons:
+        ws = [w for w in (set(a) | set(b) | set(c)) if w in unk]
+        touch.append(ws)
+        for w in ws[1:]:
+            ra, rb = find(ws[0]), find(w)
+            if ra != rb:
+                parent[ra] = rb
+    groups = {}
+    for w in unknown:
+        groups.setdefault(find(w), ([], []))[0].append(w)
+    closed = []
+    for i, ws in enumerate(touch):
+        if ws:
+            groups[find(ws[0])][1].append(i)
+        else:
+            closed.append(i)
+    return list(groups.values()), closed
+
+
+def satisfiable(cons, fixed, unknown, p, hint=None, limit=400000):
+    """is there an assignment of `unknown` satisfying all `cons` given `fixed`?  Complete: the system is split into the
+    connected components of its unknown wires (satisfiable iff every component is); for each component the recorded
+    assignment `hint` is tried first and the exhaustive search runs only where it fails.  Raises Limit like `solve`."""
+    asg0 = dict(fixed); asg0["1"] = 1
+    comps, closed = components(cons, unknown)
+    for i in closed:
+        a, b, c = cons[i]
+        if (ev(a, asg0, p) * ev(b, asg0, p) - ev(c, asg0, p)) % p != 0:
+            return False
+    for wires, idx in comps:
+        sub = [cons[i] for i in idx]
+        if hint is not None and all(w in hint for w in wires):
+            asg = dict(asg0)
+            for w in wires:
+                asg[w] = hint[w] % p
+            if all((ev(a, asg, p) * ev(b, asg, p) - ev(c, asg, p)) % p == 0 for (a, b, c) in sub):
+                continue
+        found = False
+        for _ in solve(sub, fixed, wires, p, limit=limit):
+            found = True
+            break
+        if not found:
+            return False
+    return True
